@@ -38,6 +38,7 @@ class Fixture(object):
         # eagerly: they are stuttering steps of RpycLifetime.
         self.fresh = fresh
         self.insp_seqs = {}
+        self.abandoned = set()   # sequence numbers of requests whose result the program no longer waits for
         self.objs = {k: (Obj(k) if fresh else [k]) for k in keys}
         self.base_rc = {k: self.rc(k) for k in keys}
         self.touched = []
@@ -142,13 +143,13 @@ class Fixture(object):
             if loc:
                 return {"type": "PB", "k": loc[0], "c": 0}
             if strs and handler == c.HANDLE_CALL:
-                return {"type": "REQ", "k": strs[0], "c": 0}
+                return {"type": "REQ", "k": strs[0], "c": 1 if seq in self.abandoned else 0}
             return None
         if msg == c.MSG_REPLY:
             self.refs_in(args, refs)
             rem = [k for (l, k) in refs if l == c.LABEL_REMOTE_REF]
             if rem:
-                return {"type": "PAIR" if len(rem) == 2 else "REF", "k": rem[0]}
+                return {"type": "PAIR" if len(rem) == 2 else ("OREF" if seq in self.abandoned else "REF"), "k": rem[0]}
         return None
 
     def _toH_frames(self):
@@ -177,6 +178,19 @@ class Fixture(object):
 
     def request(self, k):
         self.pending.append((k, self.sched.call(lambda: self.a_get(k))))
+
+    def request_abandoned(self, k):
+        """the program asks for k and stops waiting at once: the result expires before the reply (which still carries a
+        reference) arrives, and nobody keeps the AsyncResult"""
+        def go():
+            ares = self.a_get(k)
+            ares.set_expiry(0)
+        self.sched.call(go)
+        fl = self.net.in_flight(self.net.b)
+        try:
+            self.abandoned.add(self.brine.load(fl[-1][5:-1])[1])
+        except Exception:
+            pass
 
     def pump(self):
         """fresh mode: deliver frames without a reference event that are at the head of either stream"""
@@ -290,6 +304,8 @@ def _apply_action(fx, act, k=None):
         fx.send_pair(k)
     elif act == "Request":
         fx.request(k)
+    elif act == "RequestAbandoned":
+        fx.request_abandoned(k)
     elif act == "DropProxy":
         fx.drop(k)
     elif act == "PassBack":
@@ -480,6 +496,8 @@ def random_history(chk, rnd, keys, length, fresh=False):
             opts = []
             for k in keys:
                 opts += [("Send", k), ("SendPair", k), ("Request", k)]
+                if not fresh:
+                    opts += [("RequestAbandoned", k)]
                 if fx.held[k]:
                     opts += [("DropProxy", k), ("DropProxy", k), ("PassBack", k)]
             if fx.stream_msgs(fx.net.a):
@@ -983,7 +1001,7 @@ def main():
     if res.violation:
         raise tlc.MachineryError("specification RpycLifetime violates " + res.violation)
     chk.add_tlc(res, "exhaustive: 2 objects, <=3 boxings each, streams <=3: Accounting, Safety, NoError, LeakFree, ClosedClean")
-    for a in ("Send", "SendPair", "Request", "DeliverToHolder", "DropProxy", "PassBack", "DeliverToOwner", "Close"):
+    for a in ("Send", "SendPair", "Request", "RequestAbandoned", "DeliverToHolder", "DropProxy", "PassBack", "DeliverToOwner", "Close"):
         if res.coverage.get(a, (0, 0))[1] == 0:
             raise tlc.MachineryError("vacuity: action %s never taken" % a)
     res = tlc.require_ok(tlc.run_tlc("RpycLifetimeInspect", "MC_RpycLifetimeInspect.cfg", coverage=True), "MC_RpycLifetimeInspect")
